@@ -118,6 +118,30 @@ func (w *Recorder) Read(p []byte) (int, error) {
 	return n, err
 }
 
+// FirstSince returns the first n bytes delivered to goroutine g by the events
+// recorded from position `from` of the log on (nil when fewer were delivered).
+func (w *Recorder) FirstSince(g int64, from, n int) []byte {
+	w.mu.Lock()
+	defer w.mu.Unlock()
+	var out []byte
+	for i := from; i < len(w.log) && len(out) < n; i++ {
+		if w.log[i].G == g {
+			out = append(out, w.log[i].Data...)
+		}
+	}
+	if len(out) < n {
+		return nil
+	}
+	return out[:n]
+}
+
+// Len is the number of recorded events.
+func (w *Recorder) Len() int {
+	w.mu.Lock()
+	defer w.mu.Unlock()
+	return len(w.log)
+}
+
 // Drain returns and clears the recorded events.
 func (w *Recorder) Drain() []Event {
 	w.mu.Lock()
